@@ -65,6 +65,10 @@ def run_one(pid: str, tier: str, seed: int, replay: str | None) -> int:
 
 
 def main() -> int:
+    import faulthandler
+    import signal
+
+    faulthandler.register(signal.SIGUSR1)      # `kill -USR1 <pid>` prints the Python stack of a run that seems stuck
     ap = argparse.ArgumentParser()
     ap.add_argument("prop", nargs="?")
     ap.add_argument("--tier", default=os.environ.get("VERIF_TIER", "quick"), choices=["quick", "thorough"])
